@@ -269,5 +269,100 @@ func engineClause(schema *graphql.Schema, ref *Model) (diffs []Diff, stats map[s
 			add(what, Diff{Site: "includeDeprecated given as an operation variable", Class: class, Detail: fmt.Sprintf("expected %s, got %s", exp, got)})
 		}
 	}
+	// (e) history independence: the answers of ONE engine must not depend on the
+	// introspection operations it answered before. The same-shaped __type(name:)
+	// operation (so the second and later ones are served from the engine's plan
+	// cache and by the same planned fetch / data source instance) is asked for
+	// every user type name, a built-in scalar and an unknown name in ascending and
+	// then descending order, with a __schema operation in between, once with the
+	// name as an inline literal and once as an operation variable; EACH answer is
+	// compared with the reference for THAT name.
+	const histSite = "__type(name:) asked repeatedly on one engine"
+	seqNames := append(append([]string(nil), user...), "String", "Zz9Unknown")
+	order := append([]string(nil), seqNames...)
+	order = append(order, "") // "" = the interleaved __schema operation
+	for i := len(seqNames) - 1; i >= 0; i-- {
+		order = append(order, seqNames[i])
+	}
+	for _, asVar := range []bool{false, true} {
+		form := "inline literal"
+		if asVar {
+			form = "operation variable"
+		}
+		var asked []string
+		for _, n := range order {
+			if n == "" {
+				what := fmt.Sprintf("__schema { queryType types } between the __type operations (%s form), after %v", form, asked)
+				data, ok := exec("__schema between __type operations", what, historySchemaQuery, "")
+				if !ok {
+					continue
+				}
+				so, _ := data["__schema"].(map[string]any)
+				qt, _ := so["queryType"].(map[string]any)
+				var got []string
+				tl, _ := so["types"].([]any)
+				for _, e := range tl {
+					o, _ := e.(map[string]any)
+					tn, _ := o["name"].(string)
+					if !isIntrospectionName(tn) && !builtinScalarSet[tn] {
+						got = append(got, tn)
+					}
+				}
+				if qt["name"] != ref.Query || !sameSet(got, user) {
+					add(what, Diff{Site: histSite, Class: "__schema answer differs after __type operations",
+						Detail: fmt.Sprintf("expected queryType %q and types %v, got %v and %v", ref.Query, user, qt["name"], got)})
+				}
+				asked = append(asked, "__schema")
+				continue
+			}
+			q, vars := historyTypeQuery(n, asVar)
+			what := fmt.Sprintf("__type(name: %q) as %s, after %v on the same engine", n, form, asked)
+			asked = append(asked, n)
+			data, ok := exec("__type repeated", what, q, vars)
+			if !ok {
+				continue
+			}
+			stats["history_type_operations"]++
+			tv, has := data["__type"]
+			if !has {
+				add(what, Diff{Site: "engine response(__type repeated)", Class: "__type absent", Detail: n})
+				continue
+			}
+			et := ref.Types[n]
+			switch {
+			case n == "Zz9Unknown":
+				if tv != nil {
+					add(what, Diff{Site: histSite, Class: "non-null for an unknown type name (" + form + ")", Detail: fmt.Sprintf("__type(name: %q) = %v", n, clip(fmt.Sprint(tv), 200))})
+				}
+				continue
+			case tv == nil:
+				add(what, Diff{Site: histSite, Class: "null for an existing type (" + form + ")", Detail: fmt.Sprintf("__type(name: %q) is null", n)})
+				continue
+			}
+			o, _ := tv.(map[string]any)
+			if o["name"] != n {
+				add(what, Diff{Site: histSite, Class: "answer describes another type (" + form + ")", Detail: fmt.Sprintf("__type(name: %q) answered with the type named %v (kind %v)", n, o["name"], o["kind"])})
+				continue
+			}
+			if builtinScalarSet[n] {
+				if o["kind"] != "SCALAR" {
+					add(what, Diff{Site: "__type(name:)", Class: "built-in scalar mis-described", Detail: fmt.Sprintf("__type(name: %q) = %v", n, tv)})
+				}
+				continue
+			}
+			if o["kind"] != et.Kind {
+				add(what, Diff{Site: "__Type.kind", Class: "kind differs", Detail: fmt.Sprintf("type %s: kind expected %s, got %v", n, et.Kind, o["kind"])})
+				continue
+			}
+			gt := members(et.Kind, n, tv)
+			if gt == nil {
+				add(what, Diff{Site: "engine response(__type repeated)", Class: "malformed", Detail: clip(fmt.Sprint(tv), 200)})
+				continue
+			}
+			x := &differ{}
+			x.members(et, gt)
+			add(what, x.diffs...)
+		}
+	}
 	return diffs, stats
 }
